@@ -49,6 +49,19 @@ class Spec(object):
         return '<Spec %s>' % (self.tag,)
 
 
+_sub = {}
+
+
+def sub_db_class():
+    if 'cls' not in _sub:
+        from pylatexenc.macrospec import LatexContextDb
+
+        class SubContextDb(LatexContextDb):
+            pass
+        _sub['cls'] = SubContextDb
+    return _sub['cls']
+
+
 class NoAttrSpec(object):
     tag = 'noattr'
 
@@ -148,7 +161,7 @@ def generate(rng, tier, run):
             which = [] if rng.random() < 0.5 else _subset(rng, KINDS, 0.5)
             if batch == 'contract' and rng.random() < 0.1:
                 which = which + ['bogus']
-            ops.append(['filter', dbi, keep, excl, which, rng.random() < 0.15])
+            ops.append(['filter', dbi, keep, excl, which, rng.random() < 0.15, rng.random() < 0.12])
         elif k == 'extend':
             cat = None if rng.random() < 0.6 else rng.choice(CATS)
             unk = {}
@@ -156,7 +169,8 @@ def generate(rng, tier, run):
                 for kind in _subset(rng, KINDS, 0.5):
                     unk[kind] = rng.random() < 0.8
             ops.append(['extend', dbi, cat, _contents(rng, dense), unk,
-                        rng.random() < 0.8])     # last: freeze the parent first
+                        rng.random() < 0.8,      # freeze the parent first
+                        rng.random() < 0.12])    # create_class=<subclass>
         elif k in ('add_bad', 'extend_bad'):
             kind = rng.choice(KINDS)
             names = list(NAMES[kind])
@@ -529,7 +543,8 @@ def execute(program):
                     stats.inc('op:walker-implicit-freeze')
                 # ---------------------------------------------------- filter
                 elif kind == 'filter':
-                    _, _, keep, excl, which, legacy = op
+                    keep, excl, which, legacy = op[2:6]
+                    use_cls = len(op) > 6 and op[6]
                     keep = [_resolve(c, names) for c in keep]
                     excl = [_resolve(c, names) for c in excl]
                     fn = db.filter_context if legacy else db.filtered_context
@@ -537,9 +552,10 @@ def execute(program):
                     if len(live) >= MAX_DBS:
                         outcome = 'skipped'
                     else:
+                        kwcls = {'create_class': sub_db_class()} if use_cls else {}
                         try:
                             new_db = fn(keep_categories=list(keep), exclude_categories=list(excl),
-                                        keep_which=list(which))
+                                        keep_which=list(which), **kwcls)
                         except Exception as e:
                             raise Violation('derived-db-first-class', op_index=opi, db=target,
                                             observed='filtered_context raised ' + repr(e),
@@ -555,6 +571,13 @@ def execute(program):
                                                 for k in KINDS}])
                         nm.unknown = dict(m.unknown)
                         nm.frozen = bool(new_db.frozen)     # not specified; adopted
+                        want_cls = sub_db_class() if use_cls else type(db)
+                        if type(new_db) is not want_cls:
+                            raise Violation('derived-db-first-class', op_index=opi, db=target,
+                                            observed='filtered_context returned a ' + type(new_db).__name__,
+                                            expected=want_cls.__name__)
+                        if use_cls:
+                            stats.inc('probe:create_class-used')
                         expect_new = nm
                         if depth > 0:
                             nontrivial = True
@@ -563,7 +586,8 @@ def execute(program):
                             stats.inc('probe:filter-keeps-auto-category')
                 # ---------------------------------------------------- extend
                 elif kind == 'extend':
-                    _, _, cat, contents, unk, freeze_first = op
+                    cat, contents, unk, freeze_first = op[2:6]
+                    use_cls = len(op) > 6 and op[6]
                     stats.inc('op:extend')
                     if len(live) >= MAX_DBS:
                         outcome = 'skipped'
@@ -580,6 +604,8 @@ def execute(program):
                                 if present else None
                             kw['unknown_%s_spec' % {'macros': 'macro', 'environments': 'environment',
                                                     'specials': 'specials'}[k]] = unk_specs[k]
+                        if use_cls:
+                            kw['create_class'] = sub_db_class()
                         reject = None
                         if not m.frozen:
                             reject = 'extend-unfrozen'
@@ -635,6 +661,13 @@ def execute(program):
                             for k, s in unk_specs.items():
                                 nm.unknown[k] = s
                             nm.frozen = bool(new_db.frozen)     # adopted, checked behaviourally later
+                            want_cls = sub_db_class() if use_cls else type(db)
+                            if type(new_db) is not want_cls:
+                                raise Violation('derived-db-first-class', op_index=opi, db=target,
+                                                observed='extended_with returned a ' + type(new_db).__name__,
+                                                expected=want_cls.__name__)
+                            if use_cls:
+                                stats.inc('probe:create_class-used')
                             expect_new = nm
                             if depth > 0:
                                 nontrivial = True
@@ -769,6 +802,8 @@ def shrink_candidates(program):
                 yield repl(op[:5] + [False])
         if op[0] == 'extend' and op[4]:
             yield repl(op[:4] + [{}] + op[5:])
+        if op[0] in ('filter', 'extend') and len(op) > 6 and op[6]:
+            yield repl(op[:6] + [False])
         if len(op) > 1 and isinstance(op[1], int) and op[1] > 5:
             yield repl([op[0], op[1] % 6] + op[2:])
 
